@@ -18,6 +18,10 @@ StepClauses(hb, rb, st) ==
   IN << <<"C14:ChildOperationsChangeExactlyTheirOwnList", st.a.act \in ListActs => same>>,
         <<"C15:AttributesChangeOnlyThroughTheirOwnTag", st.a.act \in AttrActs => same>>,
         <<"C08:OnlyTheObjectAnOperationIsAppliedToChanges", st.a.act \notin (ListActs \cup AttrActs) => same>>,
+        \* whatever history the original has: what tagify() returns shares no tag, list, attribute map or metadata node with it
+        <<"C08:TagifyResultSharesNoTagListAttrsOrMetadataWithOriginal",
+             (st.a.act = "tagify" /\ st.exc = "none" /\ Len(st.roots) = Len(rb) + 1)
+                => Shared(st.heap, st.a.obj, st.roots[Len(st.roots)]) = {}>>,
         \* a tree that has a history is still just a tree: it renders like one built afresh with the same structure
         <<"C01:ATreeWithAHistoryRendersLikeAFreshOne", st.twin>>,
         <<"C05:ATreeWithAHistoryRendersLikeAFreshOne", st.twin>>,
